@@ -5,7 +5,8 @@
   check.py --replay <file>                   re-run the rule of a replay file and print its report
   check.py --all [--tier ...]                run every implemented property (exit = worst)
 
-Exit 0: all obligations discharged (KNOWN-FINDING lines allowed); 1: VIOLATION; 2: ANALYSIS-ERROR.
+Exit 0: all obligations discharged (KNOWN-FINDING lines allowed); 1: VIOLATION (including E0.argument-lost: a rule can no
+longer make its structural argument on this tree); 2: ANALYSIS-ERROR (the analysis itself could not run).
 """
 import argparse
 import importlib
